@@ -501,6 +501,12 @@ def tie(ctx):
                 for pos, n in ((len(lines) * 2 // 3, rng.randrange(1000)), (len(lines) // 3, rng.randrange(1000))):
                     lines.insert(pos, "tableapi.touch %d" % n)
                 h.ops_used["table-API setters (tableapi.touch)"] = 2
+                # ... and a state only the two levels of the API together reach: a member track removed through
+                # track_table::remove, which leaves its memberships behind (round 5, seeded C16-5: crate::tracks()
+                # "cleaned up" such entries while listing)
+                if len(cases) % 2 == 0:
+                    lines.insert(len(lines) * 5 // 6, "tableapi.rmtrack")
+                    h.ops_used["table-API track removal (tableapi.rmtrack)"] = 1
             cases.append({"schema": sch, "hist": lines, "ops": dict(h.ops_used)})
     scripts = [build_script(c["schema"], c["hist"]) for c in cases]
     outs = runner.run_harness(scripts, watchdog=60)
